@@ -8,8 +8,8 @@ From V Require Export StreamsMap.Model.
 Import ListNotations.
 Open Scope Z_scope.
 
-(** (nextStreamToAccept, nextStreamToOpen, maxStream, streams, closed) *)
-Definition insnap := (Z * Z * Z * list (Z * bool) * bool)%type.
+(** (nextStreamToAccept, nextStreamToOpen, maxStream, streams, closed, AcceptStream callers still blocked) *)
+Definition insnap := (Z * Z * Z * list (Z * bool) * bool * list Z)%type.
 (** (nextStream, maxStream, blockedSent, streams, openQueue with channel fill, closed) *)
 Definition outsnap := (Z * Z * bool * list Z * list (Z * bool) * bool)%type.
 
@@ -22,7 +22,7 @@ Inductive obs :=
 
 Definition is_some {A} (o : option A) : bool := match o with Some _ => true | None => false end.
 Definition snap_in (m : inmap) : insnap :=
-  (i_nextAccept m, i_nextOpen m, i_max m, i_streams m, is_some (i_closed m)).
+  (i_nextAccept m, i_nextOpen m, i_max m, i_streams m, is_some (i_closed m), i_parked m).
 Definition snap_out (m : outmap) : outsnap :=
   (o_next m, o_max m, o_blockedSent m, o_streams m, o_queue m, is_some (o_closed m)).
 
@@ -59,9 +59,9 @@ Definition zb_eqb (a b : Z * bool) : bool := (fst a =? fst b) && Bool.eqb (snd a
 Definition out_eqb (a b : res * list frame) : bool :=
   res_eqb (fst a) (fst b) && list_eqb frame_eqb (snd a) (snd b).
 Definition insnap_eqb (a b : insnap) : bool :=
-  let '(a1, a2, a3, a4, a5) := a in
-  let '(b1, b2, b3, b4, b5) := b in
-  (a1 =? b1) && (a2 =? b2) && (a3 =? b3) && list_eqb zb_eqb a4 b4 && Bool.eqb a5 b5.
+  let '(a1, a2, a3, a4, a5, a6) := a in
+  let '(b1, b2, b3, b4, b5, b6) := b in
+  (a1 =? b1) && (a2 =? b2) && (a3 =? b3) && list_eqb zb_eqb a4 b4 && Bool.eqb a5 b5 && list_eqb Z.eqb a6 b6.
 Definition outsnap_eqb (a b : outsnap) : bool :=
   let '(a1, a2, a3, a4, a5, a6) := a in
   let '(b1, b2, b3, b4, b5, b6) := b in
